@@ -254,6 +254,36 @@ def run_config(cfg, res):
         res.violation('agg/inputs-of-one-aggregate-split', 'inputs %r of aggregate(s) %r go to different destination sets' % (lst[:4], aggs),
                       dict(rules=text))
     res.sample(dict(rules=text, dests=[list(d) for d in dests], rf=rf, diverse=diverse), cap=2)
+    # the same long-lived router must follow the rules file as it changes under it: rewritten, removed, re-created
+    # (RuleManager.read_rules() is what its LoopingCall runs every 10 s)
+    if case % 3 == 0:
+      seen_names = names_for(text, r, 25)
+      for nm in seen_names:
+        list(router.getDestinations(nm))                    # routed once under the current rules
+      for step in ('rewrite', 'remove', 'recreate'):
+        if step == 'remove':
+          os.unlink(path)
+          text2 = ''
+        else:
+          text2 = gen_agg_rules(r)
+          with open(path, 'w') as f:
+            f.write(text2)
+          mt += 10
+          os.utime(path, (mt, mt))
+        RuleManager.read_rules()
+        rules2 = aggrules.parse_rules(text2)
+        res.count('rule_file_changes_under_a_live_router')
+        for nm in seen_names + names_for(text2, r, 10) if text2 else seen_names:
+          got = set(router.getDestinations(nm))
+          aggs = [a for a in (aggrules.aggregate_name(rule, nm) for rule in rules2) if a is not None]
+          exp = set()
+          for k in (aggs or [nm]):
+            exp |= set(router.hash_router.getDestinations(k))
+          if got != exp:
+            res.violation('agg/stale-after-rules-change/%s' % step,
+                          'after the rules file was %sd, name %r (aggregates %r) is routed to %r instead of %r; old rules %r new rules %r' % (
+                            step.rstrip('e'), nm, aggs, sorted(got, key=repr), sorted(exp, key=repr), text, text2), dict(old=text, new=text2, name=nm))
+            break
 
 
 def finalize(merged, tier):
